@@ -89,6 +89,27 @@ class StartStageHandler(
 
         def on_stage(stage: StageExecution) -> None:
             try:
+                # A synthetic stage runs as part of its parent: it has no
+                # requisites of its own, so without this check a StartStage
+                # that reaches it while the parent has not started (or has
+                # already finished) - an early, duplicated or left-over
+                # message for a child that a jump re-armed - would run it, and
+                # its completion would then start the parent's first task
+                # inside a NOT_STARTED parent. The parent sends its own
+                # StartStage to its children when it starts.
+                if stage.parent_stage_id is not None:
+                    parent = self.repository.retrieve_stage(stage.parent_stage_id)
+                    if parent is not None and (
+                        parent.status == WorkflowStatus.NOT_STARTED or parent.status.is_complete
+                    ):
+                        logger.debug(
+                            "Ignoring StartStage for synthetic stage %s: parent %s is %s",
+                            stage.name,
+                            parent.name,
+                            parent.status,
+                        )
+                        return
+
                 # Get upstream stages from repository (returns empty list if none)
                 upstream_stages = self.repository.get_upstream_stages(stage.execution.id, stage.ref_id)
                 if upstream_stages is None:
